@@ -150,6 +150,7 @@ func ChunkStream(ctx context.Context, c Chunker, ws WriteStore, n int) (Index, e
 	)
 
 	g, ctx := errgroup.WithContext(ctx)
+	verifPoolCtx("ChunkStream", ctx)
 	s := NewChunkStorage(ws)
 
 	// All the chunks are processed in parallel, but we need to preserve the
@@ -165,7 +166,9 @@ func ChunkStream(ctx context.Context, c Chunker, ws WriteStore, n int) (Index, e
 	// storage (if required). Each job comes with a chunk number for sorting later
 	for i := 0; i < n; i++ {
 		g.Go(func() error {
+			verifPool("ChunkStream", "start", i, -1)
 			for c := range in {
+				verifPool("ChunkStream", "recv", i, c.num)
 				// Create a chunk object, needed to calculate the checksum
 				chunk := NewChunk(c.b)
 
@@ -174,9 +177,12 @@ func ChunkStream(ctx context.Context, c Chunker, ws WriteStore, n int) (Index, e
 				recordResult(c.num, idxChunk)
 
 				if err := s.StoreChunk(chunk); err != nil {
+					verifPool("ChunkStream", "fail", i, -1)
 					return err
 				}
+				verifPool("ChunkStream", "ok", i, -1)
 			}
+			verifPool("ChunkStream", "exit", i, -1)
 			return nil
 		})
 	}
@@ -198,15 +204,20 @@ loop:
 
 		// Send it off for compression and storage
 		verifYield("ChunkStream.feed")
+		verifPool("ChunkStream", "select", -1, num)
 		select {
 		case <-ctx.Done():
+			verifPool("ChunkStream", "break", -1, -1)
 			interrupted = true
 			break loop
 		case in <- chunkJob{num: num, start: start, b: b}:
+			verifPool("ChunkStream", "sent", -1, num)
 		}
 		num++
 	}
+	verifPool("ChunkStream", "close", -1, -1)
 	close(in)
+	verifPool("ChunkStream", "wait", -1, -1)
 
 	if err := waitOrInterrupted(g, interrupted); err != nil {
 		return Index{}, err
